@@ -24,7 +24,7 @@ use vm_memory::{
     GuestRegionMmap, Le16, Le32, Le64, LeSize, MemoryRegionAddress, MmapRegion, VolatileMemory, VolatileSlice,
 };
 
-pub const SUITES: &[Suite] = &[Suite { name: "C04", gen, exec }];
+pub const SUITES: &[Suite] = &[Suite { name: "C04", gen, exec }, Suite { name: "C04big", gen: gen_big, exec: exec_big }];
 
 const PAGE: usize = 4096;
 const ARENA: usize = PAGE + 65536 + PAGE;
@@ -898,5 +898,200 @@ fn gen(rng: &mut Rng, tier: Tier, emit: &mut dyn FnMut(Vec<Tok>)) {
             c.extend(gen_op(rng, nn));
         }
         emit(c);
+    }
+}
+
+// ========================================================================== C04big: LARGE transfers
+// (suite C04big) one bulk operation on a container of up to 1 MiB; contents are NOT on the wire.
+// case: kind al n route size off cnt blen off2 cnt2 salt
+//   kind 0 VolatileSlice / 1 MmapRegion; container = bytes [64, 64+n) of a buffer with 64-byte margins
+//   whose first byte sits at a page boundary + al; heap byte i = (i*31 + salt) % 127 (< 127), caller's
+//   buffer byte j = 128 + (j*17 + salt) % 127 (>= 128: every byte written from the buffer changes the heap)
+//   route: 0 write 1 read 2 write_slice 3 read_slice (blen bytes at off); 12/13 get_array_ref(off,cnt)
+//   .copy_to/.copy_from(buffer of blen elements); 14 ….copy_to_volatile_slice(get_slice(off2,cnt2));
+//   15/16 get_slice(off,cnt).copy_to/copy_from::<T>(blen elements); 17 get_slice(off,cnt)
+//   .copy_to_volatile_slice(get_slice(off2,cnt2)).  size = size_of::<T>() in {1,2,4,8,16,3}
+// obs: kind count bufdiff heapdiff first last
+//   bufdiff / heapdiff: first index where the caller's buffer / the whole heap (margins included) differs
+//   from the EXPECTED result, which is computed here with plain slice copies from the request alone
+//   (independently of what the library answered); first / last: first and last heap position whose byte
+//   changed at all.  ffffffffffffffff = none.
+const BNONE: u128 = u64::MAX as u128;
+
+fn first_diff(a: &[u8], b: &[u8]) -> u128 {
+    assert!(a.len() == b.len());
+    a.iter().zip(b.iter()).position(|(x, y)| x != y).map(|i| i as u128).unwrap_or(BNONE)
+}
+
+fn exec_big(case: &[Tok]) -> Vec<Tok> {
+    let (kind, al, nn, route, sz) = (case[0].u(), case[1].u() as usize, case[2].u() as usize, case[3].u(), case[4].u() as usize);
+    let (off, cnt, blen, off2, cnt2, salt) =
+        (case[5].u() as usize, case[6].u() as usize, case[7].u() as usize, case[8].u() as usize, case[9].u() as usize, case[10].u() as usize);
+    assert!(kind <= 1 && al < 16 && nn <= 1 << 21 && blen <= 1 << 21 && matches!(sz, 1 | 2 | 3 | 4 | 8 | 16));
+    let pre = 64usize;
+    let total = pre + nn + 64;
+    let lay = std::alloc::Layout::from_size_align(total + 2 * PAGE, PAGE).unwrap();
+    // SAFETY: non-zero size
+    let raw = unsafe { std::alloc::alloc_zeroed(lay) };
+    assert!(!raw.is_null());
+    assert!(kind == 0 || al == 0); // build_raw wants a page-aligned container
+    // SAFETY: inside the allocation; the CONTAINER (heap + 64) sits at a page boundary + al
+    let heap = unsafe { raw.add(PAGE - pre + al) };
+    let init: Vec<u8> = (0..total).map(|i| ((i * 31 + salt) % 127) as u8).collect();
+    // SAFETY: inside the allocation
+    unsafe { std::ptr::copy_nonoverlapping(init.as_ptr(), heap, total) };
+    let buf_bytes = if route <= 3 { blen } else if matches!(route, 14 | 17) { 0 } else { blen * sz };
+    let buf0: Vec<u8> = (0..buf_bytes).map(|j| 128 + ((j * 17 + salt) % 127) as u8).collect();
+
+    // ---- the expected result, from the request alone (plain slices)
+    let mut heap_exp = init.clone();
+    let mut buf_exp = buf0.clone();
+    let fits = |o: usize, b: usize| (o as u128) + (b as u128) <= nn as u128;
+    match route {
+        0 | 2 => {
+            if blen > 0 && off < nn {
+                let k = blen.min(nn - off);
+                heap_exp[pre + off..pre + off + k].copy_from_slice(&buf0[..k]);
+            }
+        }
+        1 | 3 => {
+            if blen > 0 && off < nn {
+                let k = blen.min(nn - off);
+                buf_exp[..k].copy_from_slice(&init[pre + off..pre + off + k]);
+            }
+        }
+        12 | 13 | 15 | 16 => {
+            let elems = if route <= 13 { cnt } else { cnt / sz };
+            let acc = if route <= 13 { cnt * sz } else { cnt };
+            if fits(off, acc) {
+                let k = blen.min(elems) * sz;
+                if route == 12 || route == 15 {
+                    buf_exp[..k].copy_from_slice(&init[pre + off..pre + off + k]);
+                } else {
+                    heap_exp[pre + off..pre + off + k].copy_from_slice(&buf0[..k]);
+                }
+            }
+        }
+        14 | 17 => {
+            let bytes = if route == 14 { cnt * sz } else { cnt };
+            if fits(off, bytes) && fits(off2, cnt2) {
+                let k = bytes.min(cnt2);
+                heap_exp.copy_within(pre + off..pre + off + k, pre + off2);
+            }
+        }
+        _ => panic!("bad route"),
+    }
+
+    // ---- the real library
+    // SAFETY: inside the allocation
+    let cptr = unsafe { heap.add(pre) };
+    let mmap: Option<MmapRegion> = if kind == 1 {
+        // SAFETY: the memory outlives the region; not owned by it
+        Some(unsafe { MmapRegion::build_raw(cptr, nn, libc::PROT_READ | libc::PROT_WRITE, libc::MAP_ANONYMOUS | libc::MAP_PRIVATE).unwrap() })
+    } else {
+        None
+    };
+    let cn = match kind {
+        // SAFETY: inside the allocation, which outlives the slice
+        0 => Cont::S(unsafe { VolatileSlice::new(cptr, nn) }),
+        _ => Cont::M(mmap.as_ref().unwrap()),
+    };
+    let l: Vec<u128> = buf0.iter().map(|x| *x as u128).collect();
+    let (a, b, c, d) = (off as u64, cnt as u128, off2 as u128, cnt2 as u128);
+    let res: Option<Out> = util::catch(|| match route {
+        0..=3 | 17 => run_op(&cn, &op_tokens(route, 0, 0, a, b, c, d, l.clone())),
+        _ => match sz {
+            1 => typed_wide::<u8>(&cn, route, a, b, c, d, &l),
+            2 => typed_wide::<u16>(&cn, route, a, b, c, d, &l),
+            4 => typed_wide::<u32>(&cn, route, a, b, c, d, &l),
+            8 => typed_wide::<u64>(&cn, route, a, b, c, d, &l),
+            16 => typed_wide::<u128>(&cn, route, a, b, c, d, &l),
+            _ => typed_wide::<[u8; 3]>(&cn, route, a, b, c, d, &l),
+        },
+    });
+    let (k_, n_, after) = match res {
+        Some(o) => o,
+        None => (7, 0, l.clone()),
+    };
+    // buffer after the call: the routes that hand a buffer back report it; the others leave it alone
+    let buf_after: Vec<u8> = if matches!(route, 1 | 3 | 12 | 15) { after.iter().map(|x| *x as u8).collect() } else { buf0.clone() };
+    let mut cur = vec![0u8; total];
+    // SAFETY: raw read of the whole heap, independent of every accessor
+    unsafe { std::ptr::copy_nonoverlapping(heap as *const u8, cur.as_mut_ptr(), total) };
+    let first = first_diff(&cur, &init);
+    let last = cur.iter().zip(init.iter()).rposition(|(x, y)| x != y).map(|i| i as u128).unwrap_or(BNONE);
+    let out = vec![n(k_), Tok::N(n_), Tok::N(first_diff(&buf_after, &buf_exp)), Tok::N(first_diff(&cur, &heap_exp)), Tok::N(first), Tok::N(last)];
+    drop(cn);
+    drop(mmap);
+    // SAFETY: allocated with the same layout
+    unsafe { std::alloc::dealloc(raw, lay) };
+    out
+}
+
+fn gen_big(rng: &mut Rng, tier: Tier, emit: &mut dyn FnMut(Vec<Tok>)) {
+    let quick = tier == Tier::Quick;
+    let cap: u64 = if quick { 65536 } else { 1 << 20 };
+    let idx = std::cell::Cell::new(0u64);
+    let case = |kind: u64, nn: u64, route: u64, sz: u64, off: u64, cnt: u64, blen: u64, off2: u64, cnt2: u64, emit: &mut dyn FnMut(Vec<Tok>)| {
+        idx.set(idx.get() + 1);
+        let i = idx.get();
+        emit(vec![n(kind), n(if kind == 1 { 0 } else { i % 16 }), n(nn), n(route), n(sz), n(off), n(cnt), n(blen), n(off2), n(cnt2), n(i * 7 % 127)]);
+    };
+    for sz in [1u64, 2, 4, 8, 16, 3] {
+        let mut counts: Vec<u64> = vec![1023, 1024, 1025, 2047, 2048, 2049, 4096, 8191, 65536 / sz, 65536 / sz - 1];
+        if !quick {
+            counts.extend([16383, 16384, 16385, (1 << 20) / sz - 3]);
+        }
+        for &cnt in &counts {
+            for off in [0u64, 5] {
+                let bytes = cnt * sz;
+                // typed routes
+                for route in [12u64, 13, 15, 16] {
+                    let acc = if route <= 13 { cnt } else { bytes + (cnt % 2) * (sz - 1) };
+                    for (slack, blen) in [(0u64, cnt), (9, cnt + 3), (0, cnt - 1), (9, cnt)] {
+                        let nn = off + bytes + (cnt % 2) * (sz - 1) + slack;
+                        if nn <= cap {
+                            case(idx.get() % 2, nn, route, sz, off, acc, blen, 0, 0, emit);
+                        }
+                    }
+                    // an accessor one byte too long: refused, nothing moves
+                    let nn = off + if route <= 13 { bytes } else { acc };
+                    if nn <= cap && cnt % 3 == 0 {
+                        case(0, nn - 1, route, sz, off, acc, cnt, 0, 0, emit);
+                    }
+                }
+                // heap-to-heap
+                for route in [14u64, 17] {
+                    let src = if route == 14 { cnt } else { bytes };
+                    let mut off2 = off + bytes + 13;
+                    if (off2 - off) % 127 == 0 {
+                        off2 += 1;
+                    }
+                    for cnt2 in [bytes, bytes - 1, bytes + 5] {
+                        let nn = off2 + cnt2 + (cnt % 2) * 9;
+                        if nn <= cap {
+                            case(idx.get() % 2, nn, route, sz, off, src, 0, off2, cnt2, emit);
+                        }
+                    }
+                    // overlapping move (memmove semantics), destination below / above the source
+                    let sh = 1 + rng.below(100);
+                    let nn = off + sh + bytes + 3;
+                    if nn <= cap && sh % 127 != 0 {
+                        case(0, nn, route, sz, off + sh, src, 0, off, bytes, emit);
+                        case(0, nn, route, sz, off, src, 0, off + sh, bytes, emit);
+                    }
+                }
+                // byte-buffer routes (the element size plays no part)
+                if sz <= 2 {
+                    for route in 0..4u64 {
+                        for nn in [off + bytes, off + bytes + 9, off + bytes - 3] {
+                            if nn <= cap {
+                                case(idx.get() % 2, nn, route, 1, off, 0, bytes, 0, 0, emit);
+                            }
+                        }
+                    }
+                }
+            }
+        }
     }
 }
